@@ -10,10 +10,16 @@ def main():
     pid = sys.argv[1]
     filt = sys.argv[2] if len(sys.argv) > 2 else ""
     mod = importlib.import_module("contracts." + pid)
-    C = mod.build()
+    sets = [mod.build()] + (mod.build_extra() if hasattr(mod, "build_extra") else [])
     t0 = time.time()
+    for C in sets:
+        run_set(C, filt)
+    print("total %.1fs" % (time.time() - t0))
+
+
+def run_set(C, filt):
     for key, fc in C.fns.items():
-        if not fc.verified or filt not in key:
+        if not fc.verified or filt not in key or (C.only_verify is not None and key not in C.only_verify):
             continue
         r = verify_function(C, key, {})
         agg = {}
@@ -34,7 +40,6 @@ def main():
                 print("    %s %s  [%s]" % (o.status.upper(), o.name, o.clause))
                 if o.model:
                     print("        model:", {k: v for k, v in list(o.model.items())[:12]})
-    print("total %.1fs" % (time.time() - t0))
 
 
 main()
